@@ -19,7 +19,7 @@ EXPLANATION = (
     'these shapes: KEEPALIVEs arriving at intervals <= L keep now-last <= L at every check (no false timeout), and '
     'silence > 2L spans a full sleep of L after the last receipt, so the next check sees now-last > L. The checker '
     'verifies the shapes, not the bounds; periods as run-time facts are not decided.')
-EXPLANATION_ADDED = ('The sender calls the _before_sender/_finally_sender hooks in which the client starts and stops its keepalive task; KEEPALIVE frames reach handle_keep_alive (dispatch row and routing). No call of a library coroutine function is dropped as a statement or returned un-awaited from another coroutine function (C15.d): the call-backs the library awaits - keepalive timeout included - reach the application through the handler adapters.')
+EXPLANATION_ADDED = ('The sender calls the _before_sender/_finally_sender hooks in which the client starts and stops its keepalive task; KEEPALIVE frames reach handle_keep_alive (dispatch row and routing). No call of a library coroutine function is dropped as a statement or returned un-awaited from another coroutine function (C15.d): the call-backs the library awaits - keepalive timeout included - reach the application through the handler adapters. The keep-alive period and the maximum lifetime the loops use are the constructor arguments themselves (shared C16.c).')
 EXPLANATION = EXPLANATION.replace(' Not decided', ' ' + EXPLANATION_ADDED + ' Not decided', 1) \
     if ' Not decided' in EXPLANATION else EXPLANATION + ' ' + EXPLANATION_ADDED
 ASSUMPTIONS = COMMON_ASSUMPTIONS
@@ -252,6 +252,13 @@ def rule_dispatch(ctx):
     dispatch.rule_routing(ctx, 'C01.e', only=['KeepAliveFrame'])
 
 
+def rule_periods(ctx):
+    """The periods the emitter sleeps and the watchdog compares with are the constructor's arguments, unmodified
+    (shared C16.c: provenance of the configuration attributes)."""
+    from .c16 import rule_c as c16c
+    c16c(ctx)
+
+
 def rule_coroutines(ctx):
     """Every coroutine the library creates is run: the keepalive-timeout (and every other) call-back reaches the
     application through the handler adapters only if the adapter awaits the delegate (rules/binding.py)."""
@@ -259,4 +266,4 @@ def rule_coroutines(ctx):
     rule_coroutines_run(ctx, 'C15.d', ['rsocket', 'reactivestreams'], 'library coroutine calls')
 
 
-RULES = [('C15.a', rule_a), ('C15.b', rule_b), ('C15.c', rule_c), ('C15.b', rule_plumbing), ('C01.e', rule_dispatch), ('C15.d', rule_coroutines)]
+RULES = [('C15.a', rule_a), ('C15.b', rule_b), ('C15.c', rule_c), ('C15.b', rule_plumbing), ('C01.e', rule_dispatch), ('C15.d', rule_coroutines), ('C16.c', rule_periods)]
